@@ -49,6 +49,16 @@ def apply(pm, v):
     if _TIMEOUTS["n"] >= 3:
         # three calls in this worker already ran into the limit: the rest is not attempted (the verdict is settled)
         return {"t": "x", "v": enc.text("CallTimeout")}
+    fr = v.get("frame")
+    if isinstance(fr, list) and len(fr) in (7, 14) and v.get("id", 0) % 2 and not v["fn"].startswith(("common.", "crc", "icao")):
+        # every other decoder call is preceded by what a user does first with a frame - df() and icao() - so that module-level
+        # state those leave behind (caches keyed on part of the input) is in place when the decoder under test runs
+        try:
+            t = bytes(fr).hex().upper()
+            pm.df(t)
+            pm.icao(t)
+        except Exception:  # noqa: BLE001 - their own correctness is judged elsewhere
+            pass
     limit = float(os.environ.get("VERIF_CALL_TIMEOUT", "120"))
     old = signal.signal(signal.SIGALRM, _on_alarm)
     signal.setitimer(signal.ITIMER_REAL, limit, 5.0)        # keeps firing: a bare `except:` in the library may swallow the first
@@ -68,6 +78,16 @@ def apply(pm, v):
 @reg("crc")
 def _crc(pm, v):
     return enc.res(pm.common.crc(hx(v), bool(v["enc"])))
+
+
+@reg("crc.seq")
+def _crc_seq(pm, v):
+    """several crc() calls on related frames, one after the other in one process: the result of each may depend on its own
+    argument only (a cache or a module-level shortcut keyed on less than the whole argument shows up here)"""
+    out = []
+    for c in v["calls"]:
+        out.append(enc.call(pm.common.crc, hx(c), bool(c["enc"])))
+    return {"t": "seq", "v": out}
 
 
 @reg("crc_legacy")
@@ -97,13 +117,31 @@ def _bits13(v):
     return format(v["code"], "013b")
 
 
+def _twin(f, *a):
+    """the altitude and identity decoders work on the same 13-bit codes: every other call of one is preceded by its twin on the
+    same code (module-level state shared between the two would show)"""
+    try:
+        f(*a)
+    except Exception:  # noqa: BLE001
+        pass
+
+
+def _as_df(frame, df):
+    return [(df << 3) | (frame[0] & 7)] + list(frame[1:])
+
+
 @reg("common.altitude")
 def _c_alt(pm, v):
+    if v.get("id", 0) % 2:
+        _twin(pm.common.squawk, _bits13(v))
     return enc.res(pm.common.altitude(_bits13(v)))
 
 
 @reg("common.altcode")
 def _c_altcode(pm, v):
+    if v.get("id", 0) % 2 and "frame" in v:
+        fr = v["frame"]
+        _twin(pm.common.idcode, bytes(_as_df(fr, 5 if len(fr) == 7 else 21)).hex().upper())
     return enc.res(pm.common.altcode(hx(v)))
 
 
@@ -124,11 +162,16 @@ def _a_alt05(pm, v):
 
 @reg("common.squawk")
 def _c_sq(pm, v):
+    if v.get("id", 0) % 2:
+        _twin(pm.common.altitude, _bits13(v))
     return enc.res(pm.common.squawk(_bits13(v)))
 
 
 @reg("common.idcode")
 def _c_id(pm, v):
+    if v.get("id", 0) % 2 and "frame" in v:
+        fr = v["frame"]
+        _twin(pm.common.altcode, bytes(_as_df(fr, 4 if len(fr) == 7 else 20)).hex().upper())
     return enc.res(pm.common.idcode(hx(v)))
 
 
@@ -483,7 +526,11 @@ def _net_run(pm, v):
     rr = _r.Random(len(v["batches"]) * 7919 + sum(len(b) for b in v["batches"]))
     for batch in v["batches"]:
         # time stamps as the readers deliver them need not increase (the Skysense reader takes them from the frame)
-        s.handle_messages([[bytes(m).hex().upper(), rr.choice([1.0 + k, 86399.5 - k, rr.random() * 100])] for k, m in enumerate(batch)])
+        # hex letter case as the raw (AVR) reader hands it over: whatever the sender used
+        lower = v.get("lower", 0)
+        s.handle_messages([[bytes(m).hex().upper() if lower == 0 else bytes(m).hex() if lower == 1 else
+                            "".join(c.upper() if rr.random() < 0.5 else c for c in bytes(m).hex()),
+                            rr.choice([1.0 + k, 86399.5 - k, rr.random() * 100])] for k, m in enumerate(batch)])
     adsb, commb, nts = [], [], 0
     for d in s.raw_pipe_in.sent:
         adsb += d["adsb_msg"]
